@@ -487,6 +487,27 @@ func init() {
 				}
 			}
 		}
+		// three datagrams of one client with gaps g1, g2 < timeout, then a reply just before the
+		// promise of the third runs out: the association is alive all the time
+		for _, T := range []time.Duration{10 * time.Second, 300 * time.Second} {
+			step := T / 10
+			if ctx.Tier == "thorough" {
+				step = T / 20
+			}
+			for g1 := step; g1 < T; g1 += step {
+				for g2 := step; g2 < T; g2 += step {
+					idx++
+					if !ctx.Mine(idx) {
+						continue
+					}
+					in := input{Timeout: T, Ops: []udpx.Op{{K: "S", C: 0, Key: 0, T: 1, N: 30}, {K: "A", D: g1}, {K: "S", C: 0, Key: 0, T: 1, N: 30}, {K: "A", D: g2},
+						{K: "S", C: 0, Key: 0, T: 1, N: 30}, {K: "A", D: T - time.Second}, {K: "R", C: 0, T: 1, N: 20}, {K: "A", D: 2 * time.Second}}}
+					sc := scenario(in)
+					sc.Name = "nat-gaps"
+					ctx.RunCase("nat-gaps", "Q", sc, in, nil)
+				}
+			}
+		}
 		// teardown windows: the removal report takes 2 ms, and client datagrams, replies and a
 		// second client arrive inside, at the edges of and after the window
 		for i, in := range windowInputs() {
@@ -509,7 +530,7 @@ func init() {
 			return []*engine.Finding{{Sig: "BROKEN:bad-input", Msg: err.Error()}}
 		}
 		rp.Choices = nil
-		if rp.Unit == "nat-window" || rp.Unit == "nat-shared-shutdown" || rp.Unit == "nat-listener-dropped" {
+		if rp.Unit == "nat-window" || rp.Unit == "nat-shared-shutdown" || rp.Unit == "nat-listener-dropped" || rp.Unit == "nat-gaps" {
 			return engine.ReplayCase(rp.Unit, scenario(in), rp)
 		}
 		return engine.ReplayCase("nat-life", scenario(in), rp)
